@@ -155,6 +155,7 @@ class Scaling(Interp):
         self.depth = depth
         self.eps_max = eps_max
         self.notes: List[str] = []
+        self.definite: List[str] = []
         self.stores: List[Tuple[ast.stmt, str, SV, SV]] = []  # (stmt, target, index value, stored value)
         self.compares: List[Tuple[ast.Compare, SV, SV]] = []
         self.calls: List[Tuple[ast.Call, str, List[SV]]] = []
@@ -283,6 +284,10 @@ class Scaling(Interp):
     def binop(self, op, a: SV, b: SV, node) -> SV:
         if not isinstance(a, SV) or not isinstance(b, SV):
             return unk("non-value")
+        if isinstance(op, ast.Mult):
+            for x, y in ((a, b), (b, a)):
+                if x.kind == "dir" and y.kind == "unk":
+                    return SV("dir", None, why="direction times an undetermined magnitude")
         if a.kind == "unk":
             return a
         if b.kind == "unk":
@@ -292,6 +297,10 @@ class Scaling(Interp):
                 return a  # regulariser
             if self.is_eps(a) and b.kind in ("det", "sigabs", "sigpow"):
                 return b
+            for q, lit in ((a, b), (b, a)):
+                if q.kind == "det" and q.m is not None and not q.m.only_coef() and lit.kind == "det" and lit.m is not None and lit.m.only_coef() and lit.tag == "lit":
+                    self.definite.append(f"`{unparse(node)}`: the additive constant {lit.m.coef_value():g} is not a negligible regulariser (> {self.eps_max:g}): the law is biased for small signals")
+                    return q
             for s, r in ((a, b), (b, a)):
                 if s.kind == "sig" and r.kind == "rnd":
                     return SV("out", s.m, r.m, cplx=r.cplx, src=s.src)
@@ -337,9 +346,9 @@ class Scaling(Interp):
                     m = a.m.pow(q)
                     return SV("det", m, axes=a.axes) if m is not None else unk("power")
                 if a.kind == "sigabs" and abs(q - 2) < 1e-12:
-                    return SV("sigpow", a.m.pow(2), src=a.src)
+                    return SV("sigpow", a.m.pow(2), src=a.src, axes=a.axes)
                 if a.kind == "sig" and abs(q - 2) < 1e-12:
-                    return SV("sigpow", a.m.pow(2), tag="real-square", src=a.src)
+                    return SV("sigpow", a.m.pow(2), tag="real-square", src=a.src, axes=a.axes)
                 if a.kind == "rnd":
                     return unk("power of a random value")
             # 10 ** (dB / 10): dB -> linear
@@ -354,7 +363,7 @@ class Scaling(Interp):
         for x, y in ((a, b), (b, a)):
             if x.kind == "det" and y.kind == "det":
                 axes = x.axes or y.axes
-                return SV("det", x.m * y.m, axes=axes)
+                return SV("det", x.m * y.m, axes=axes, tag="ones" if "ones" in (x.tag, y.tag) else None)
             if x.kind in ("sig", "sigabs", "sigpow", "sigpart", "dir") and y.kind == "det":
                 return replace(x, m=x.m * y.m, axes=y.axes or x.axes)
             if x.kind == "rnd" and y.kind == "det":
@@ -366,9 +375,8 @@ class Scaling(Interp):
             if x.kind == "none" and y.kind == "none":
                 return NONE_V
             if x.kind == "ones" and y.kind == "det":
-                return SV("const", y.m, axes=y.axes)
-            if x.kind == "const" and y.kind == "det":
-                return SV("const", x.m * y.m, axes=x.axes or y.axes)
+                return SV("det", y.m, axes=y.axes, tag="ones")  # a constant tensor of that level
+
             if x.kind == "dir" and y.kind == "det":
                 return SV("dir", x.m * y.m)
             if x.kind == "ext" and y.kind == "det":
@@ -415,10 +423,12 @@ class Scaling(Interp):
             return target
         if short == "reshape" and target is not None:
             # x.reshape(batch_size, -1): every remaining axis is merged into one: per-item layout
-            return replace(target, tag="reshaped-item") if isinstance(target, SV) and target.kind in ("sig", "out") and len(rest) == 2 else target
+            if isinstance(target, SV) and target.kind in ("sig", "out") and len(rest) == 2 and len(node.args) == 2 and unparse(node.args[1]) == "-1":
+                return replace(target, axes="rows")  # (batch, everything else): one row per item
+            return target
         if short in ("abs", "absolute") and target is not None:
             if target.kind == "sig":
-                return SV("sigabs", target.m, src=target.src)
+                return SV("sigabs", target.m, src=target.src, axes=target.axes)
             if target.kind in ("sigabs", "sigpow", "det"):
                 return target
             if target.kind == "out":
@@ -461,7 +471,7 @@ class Scaling(Interp):
                 return unk(f"real and imaginary noise with different variances {a.show()} / {b.show()}")
             if a.kind in ("sig", "sigpart") and b.kind == "zero":
                 return SV("sig", a.m, src=a.src)
-            if a.kind == "const" and b.kind == "zero":
+            if a.kind == "det" and a.tag == "ones" and b.kind == "zero":
                 return a
             return unk(f"complex({a.show()}, {b.show()})")
         if short in ("log10",) and target is not None:
@@ -505,7 +515,7 @@ class Scaling(Interp):
             txt = unparse(dim_node)
             if txt == "None":
                 axes = "all"
-            elif txt in ("1", "-1") and target.tag in ("reshaped-item",):
+            elif txt in ("1", "-1") and target.axes == "rows":
                 axes = "item"
             elif txt == "dim":
                 axes = "param:dim"
@@ -541,6 +551,7 @@ class Scaling(Interp):
         sub = Scaling(callee, self.repo, cls=self.cls if bound else callee.cls, config=self.config, attr_values=self.attr_values, method_models=self.method_models, depth=self.depth + 1, eps_max=self.eps_max)
         sub.run(env)
         self.notes += sub.notes
+        self.definite += sub.definite
         self.compares += sub.compares
         self.stores += sub.stores
         out = None
